@@ -245,3 +245,20 @@ Proof.
   - intros l1 H1. cbv zeta. apply (concave_increasing L N Nn dl du l1); assumption.
 Qed.
 Print Assumptions C10_monotonic_forms_increase_as_functions.
+
+(* the WHOLE function returned with a wall at one end (numpy.piecewise of the exponential guard-cell continuation and the main piece; the
+   piece conditions i < 0 / i > N are the ones the translator reads off the source) is strictly increasing across the join:
+   on (-inf, N] with a wall at the lower end, on [0, +inf) with a wall at the upper end *)
+Theorem C10_sqrt_form_increases_into_guard_cells : forall L N Nn eps, 0 < N -> 0 < Nn -> 0 <= eps ->
+  (forall bl au bu, 0 <= au -> S_sqrt2_a0_lower_B L N Nn 0 bl au bu <> 0 -> 0 < bl -> 0 < red_bl N Nn bl au -> 0 < bu ->
+     red_L L N Nn 0 au >= (bu + red_bl N Nn bl au) / 2 * (N / Nn) - eps -> 3 * eps * Nn / (2 * N) < Rmin (red_bl N Nn bl au) bu ->
+     forall x y, x < y -> y <= N -> sqrt2_a0_whole L N Nn bl au bu x < sqrt2_a0_whole L N Nn bl au bu y) /\
+  (forall al bl bu, 0 <= al -> S_sqrt2_b0_upper_B L N Nn al bl 0 bu <> 0 -> 0 < bu -> 0 < bl -> 0 < red_bu N Nn bu al ->
+     red_L L N Nn al 0 >= (red_bu N Nn bu al + bl) / 2 * (N / Nn) - eps -> 3 * eps * Nn / (2 * N) < Rmin bl (red_bu N Nn bu al) ->
+     forall x y, 0 <= x -> x < y -> sqrt2_b0_whole L N Nn al bl bu x < sqrt2_b0_whole L N Nn al bl bu y).
+Proof.
+  intros L N Nn eps HN HNn He. split.
+  - intros. apply (sqrt2_a0_whole_increasing L N Nn bl au bu eps); assumption.
+  - intros. apply (sqrt2_b0_whole_increasing L N Nn al bl bu eps); assumption.
+Qed.
+Print Assumptions C10_sqrt_form_increases_into_guard_cells.
